@@ -9,7 +9,8 @@ Implementation side (observed at the public interfaces only):
   * `mokapot.peptides.match_decoy` (the pairing step of `group_without_decoys`, target-only FASTA), with the
     seeded shuffle obtained independently from the pandas primitive `Series.sample` itself.
 Model side: driver ops `strip`, `picked`, `pickedq`, `spec-C15`, `matchdecoy`, `pickedfull`, `pickedfiles`,
-`pickedrun` (several collections / calls, chunk-wise writer), `joingroup` (+ `qspec` of C01).
+`pickedrun` (several collections / calls, chunk-wise writer), `joingroup` (+ `qspec` of C01); third pass: `stripn`, `stripmodsn`,
+`dropdash` (model of the repair proposed in FINDING-C15.md, against Python's `re` and the patched function written with pandas).
 The spec is evaluated on the implementation's output twice, independently of the model: by the Lean
 checker `spec-C15` (proved equivalent to `SpecEntries`) and by a direct Python re-statement that uses the
 generator's ground truth (the residue sequence behind every rendered peptide) instead of any stripping.
@@ -40,7 +41,8 @@ warnings.simplefilter("ignore")
 RULE = (
     "cases = (FASTA text with subset/duplicate/overlapping proteins, with or without decoy entries, identifiers plain / "
     "UniProt-like / odd / made of prefix letters / holding commas -> real read_fasta -> Proteins; peptide table rendered "
-    "in one of 9 modification/flank notations; table shapes random mixture / empty / placed exactly on and one row above "
+    "in one of 9 flat modification/flank notations or (8 % of the direct tables) one of 3 notations with annotations that hold "
+    "brackets / ProForma terminal modifications; table shapes random mixture / empty / placed exactly on and one row above "
     "the thresholds of the 10 % and 5 % rules; scores tie-free or tied, small or needing 25 significant bits (not "
     "float32-representable); seed given as int or numpy Generator; row labels of the table range/permuted/offset/duplicated; "
     "entry point picked_protein or assign_confidence result files, the latter from text or Parquet input, with "
@@ -260,8 +262,64 @@ FLANKS = [("K", "A"), ("-", "-"), ("R", "G"), ("K", "-"), ("", ""), ("MK", "AA")
 STYLES = ["plain", "flank", "bracket", "paren", "mixed", "lowmark", "full", "lower_all", "lower_all_flank", "sparse"]
 
 
+# third pass: annotations that themselves hold brackets (MaxQuant / UniMod names), and the ProForma terminal
+# notation `[mod]-SEQ-[mod]`.  Well-formed = a square annotation holds square brackets only as complete inner groups
+# (round ones are plain text inside it) and vice versa; one level.  Ground truth as before: the residue sequence.
+NESTED_STYLES = ["nested", "maxquant", "proforma"]
+MODS_NEST_SQ = ["[Oxidation (M)]", "[Phospho (STY)]", "[Label:13C(6)15N(2)]", "[Acetyl (Protein N-term)]", "[a[b]c]",
+                "[[+1.5]]", "[x (y]", "[Cation:Fe[III]]", "[)(]", "[+15.995]"]
+MODS_NEST_RD = ["(Oxidation (M))", "(Phospho (STY))", "(Acetyl (Protein N-term))", "(Gln->pyro-Glu)", "((ox))",
+                "(a [b (c))", "(ph (S).)", "(ox)"]
+NTERM_MODS = ["[Acetyl]", "[+42.011]", "[Acetyl (N-term)]", "(Acetyl (Protein N-term))", "[iTRAQ4plex][+1]"]
+CTERM_MODS = ["[Amidated]", "[-0.984]", "(Amidated (C-term))"]
+NESTED_SIG = "spec:modification annotation holding a bracket / terminal separator not ignored"
+
+
+def render_nested(rng, seq: str, style: str) -> str:
+    mods = MODS_NEST_RD if style == "maxquant" else MODS_NEST_SQ + MODS_NEST_RD
+    rate = 0.15 if style == "proforma" else 0.3
+    out = []
+    if style == "maxquant" and rng.random() < 0.3:
+        out.append("(Acetyl (Protein N-term))")
+    for ch in seq:
+        out.append(ch)
+        if rng.random() < rate:
+            out.append(rng.choice(mods))
+        if style == "nested" and rng.random() < 0.1:
+            out.append(rng.choice("nmcoxp"))
+    body = "".join(out)
+    if style == "proforma":
+        if rng.random() < 0.7:
+            body = rng.choice(NTERM_MODS) + "-" + body
+        if rng.random() < 0.3:
+            body = body + "-" + rng.choice(CTERM_MODS)
+    if rng.random() < 0.4:
+        l, r = rng.choice(FLANKS)
+        return f"{l}.{body}.{r}"
+    return body
+
+
+def strip_fixed(ser):
+    """the repair proposed in FINDING-C15.md, written with the same pandas primitives as strip_peptides (the model
+    `stripColN` is compared with it: ties the model of the new expressions to the regex engines pandas uses)"""
+    mod = r"\[(?:[^\[\]]|\[[^\[\]]*\])*\]|\((?:[^()]|\([^()]*\))*\)"
+    ser = (ser.str.replace(mod, "", regex=True).str.replace(r"^.*?\.", "", regex=True)
+           .str.replace(r"\..*?$", "", regex=True).str.replace(r"^-|-$", "", regex=True))
+    if all(ser.str.islower()):
+        return ser.str.upper()
+    return ser.str.replace(r"[a-z]", "", regex=True)
+
+
+def real_strip(peps, pdtype):
+    from mokapot.picked_protein import strip_peptides
+
+    return [str(x) for x in strip_peptides(pd.Series(list(peps), dtype=(object if pdtype == "object" else "str"))).tolist()]
+
+
 def render(rng, seq: str, style: str) -> str:
     """one well-formed notation of the residue sequence `seq` (ground truth: stripping must give `seq`)"""
+    if style in NESTED_STYLES:
+        return render_nested(rng, seq, style)
     if style == "sparse":  # a mostly plain table with the occasional annotated peptide
         style = "plain" if rng.random() < 0.9 else rng.choice(["flank", "bracket", "paren", "mixed", "lowmark", "full"])
     lower_all = style.startswith("lower_all")
@@ -328,6 +386,8 @@ def gen_table(rng, db, P, big=False, e2e=False, tiefree=False):
     n = rng.choice([12, 16, 20, 30, 40] if (db or {}).get("wide") else [1, 2, 3, 4, 5, 6, 8, 10, 12, 16, 20, 30] + ([40, 60, 100] if big else []))
     flip = rng.choice([0, 0, 0, 0.05, 0.2])
     style = rng.choice(STYLES + (["sparse"] * 3 if n >= 10 else []))
+    if not e2e and rng.random() < 0.08:
+        style = rng.choice(NESTED_STYLES)
     # table shapes: random mixtures, the empty table, and tables placed on the thresholds of the two digest rules
     # (exactly a tenth / a tenth plus one row unmappable; exactly a twentieth / one more of the decoy rows)
     shape = "random"
@@ -894,6 +954,18 @@ def nontrivial_key(case, stripped):
             tuple((s, ranks.index(Fraction(r["score"])), r["target"]) for s, r in zip(stripped, rows)))
 
 
+def dup_labels_only(c):
+    """is the violation on this table (row labels repeated) gone when the same rows carry a range index?  Only then it is
+    the repaired defect 'duplicate row labels' coming back; any other defect keeps its own signature."""
+    try:
+        c2 = {k_: v_ for k_, v_ in c.items() if k_ != "warm"}
+        c2["index"] = "range"
+        st2, ents2 = impl_direct(c2)
+        return st2 == "ok" and all(e[0] is not None for e in ents2) and py_spec(c["P"], c["rows"], c["dm"], ents2) is None
+    except Exception:  # noqa: BLE001
+        return False
+
+
 def eval_direct(chk, cases):
     """picked_protein: impl vs model vs spec"""
     cases = [c for c in cases if ascii_ok(c)]
@@ -949,6 +1021,21 @@ def eval_direct(chk, cases):
         if c.get("_mm"):
             chk.count("pair_member_order_mismatch_in_db", True)
         cj = dict(case=jsonable({k_: v for k_, v in c.items() if not k_.startswith("_")}))
+        if c["style"] in NESTED_STYLES and rows:
+            # annotations holding brackets / terminal separators: the clause "modifications ... are ignored when
+            # mapping" judged where it is decided — the stripped sequences the real code maps with, against the
+            # generator's ground truth.  Everything downstream (unmapped peptides, missing entries, the 10 % rule)
+            # follows from it, so such a table is reported once, under one signature.
+            real = real_strip([r["peptide"] for r in rows], c["pdtype"])
+            truth = [r["seq"] for r in rows]
+            chk.count("nested_notation_stripped_by_code", real == truth)
+            if real != truth:
+                k_ = next(i_ for i_ in range(len(rows)) if real[i_] != truth[i_])
+                chk.spec_violation(NESTED_SIG, dict(**cj, impl=real, expected=truth, first_row=[rows[k_]["peptide"], real[k_], truth[k_]],
+                                                    picked_protein=st if st != "ok" else [str(e) for e in ents],
+                                                    clause="modifications and flanking residues are ignored when mapping peptides "
+                                                           "to proteins: the stripped sequence is not the residue sequence"))
+                continue
         # target-only FASTA: the pairing drawn by the real match_decoy (replicated call) against its contract and
         # against the model's pairing computed from the independently drawn shuffle
         if not P["has_decoys"] and len(stripped) == len(rows) and all(s_ == r.get("seq") for s_, r in zip(stripped, rows)):
@@ -983,7 +1070,7 @@ def eval_direct(chk, cases):
             chk.corr_break("pickedfull", dict(**cj, model_given_pairing=str(model)[:600], model_computed_pairing=str(full_model)[:600]))
             continue
         # ground truth of the notation: the model's stripping must be the residue sequence (wf notations)
-        if c["style"] in STYLES and len(stripped) == len(rows) and any(s != r["seq"] for s, r in zip(stripped, rows)):
+        if c["style"] in STYLES + NESTED_STYLES and len(stripped) == len(rows) and any(s != r["seq"] for s, r in zip(stripped, rows)):
             chk.corr_break("strip-groundtruth", dict(**cj, model_stripped=stripped))
         if st.startswith("other"):
             chk.spec_violation("unexpected-exception:" + st.split(":")[1], dict(**cj, error=st, clause="picked_protein raised an unexpected exception"))
@@ -1014,7 +1101,7 @@ def eval_direct(chk, cases):
             if comma_sig(P, rows, dm, ents, sig) == COMMA_SIG:
                 sig = COMMA_SIG
                 clause = "protein identifiers holding a comma (pairs formed by the text up to the first comma): " + clause
-            elif c["index"] == "dup":
+            elif c["index"] == "dup" and dup_labels_only(c):
                 sig = "spec:duplicate row labels"
                 clause = "table with repeated row labels: " + clause
             chk.spec_violation(sig, dict(**cj, impl=[str(e) for e in ents], expected=[str(e) for e in model], clause=clause))
@@ -1483,7 +1570,8 @@ def eval_run(chk, cases):
                 clause = "several collections: the set of protein result files is not the one the prefixes demand"
             else:
                 name = next(n_ for n_ in expected if files[n_] != expected[n_])
-                if sorted(l[:4] for l in files[name]) != sorted(l[:4] for l in expected[name]):
+                # (a result file may hold entries without a group — NaN read back as None: compared as text)
+                if sorted((repr(l[:4]) for l in files[name])) != sorted((repr(l[:4]) for l in expected[name])):
                     clause = f"several collections: {name} does not hold exactly the entries of its own collections"
                 elif [l[:4] for l in files[name]] != [l[:4] for l in expected[name]]:
                     clause = f"several collections: the sections of {name} are not in call order / score order"
@@ -1547,9 +1635,19 @@ def eval_strip(chk, rng, n):
 
     cols = []
     for _ in range(n):
-        mode = rng.choice(["exotic", "wf", "wf", "lower", "mixedcase", "random", "random"])
+        mode = rng.choice(["exotic", "wf", "wf", "lower", "mixedcase", "random", "random", "nested", "nested", "random2"])
         k = rng.randint(0, 6)
-        if mode == "exotic":
+        if mode == "nested":
+            # annotations holding brackets, terminal modifications with the `-` separator (ground truth known)
+            col = []
+            for _ in range(max(1, k)):
+                s = "".join(rng.choice(AA) for _ in range(rng.randint(1, 6))) + "K"
+                col.append((render(rng, s, rng.choice(NESTED_STYLES)), s))
+        elif mode == "random2":
+            # deeper nestings and dashes: the repaired expressions against their model
+            alpha = rng.choice(["[]A-", "[]()A", "[[]]((.-AK", "()A-.", "[]()-.Aa"])
+            col = [("".join(rng.choice(alpha) for _ in range(rng.randint(0, 12))), None) for _ in range(max(1, k))]
+        elif mode == "exotic":
             col = [(rng.choice(EXOTIC), None) for _ in range(k)]
         elif mode == "random":
             # arbitrary nestings of brackets, dots and letter cases: no ground truth, the regular expressions of the
@@ -1569,14 +1667,41 @@ def eval_strip(chk, rng, n):
                 col.append((render(rng, s, rng.choice(STYLES[:7])), s))
             if mode == "mixedcase" and col:
                 col.append(("abck", None))
-        cols.append(col)
-    cols = [c for c in cols if all(p.isascii() for p, _ in c)]
+        cols.append((mode, col))
+    cols = [(m, c) for m, c in cols if all(p.isascii() for p, _ in c)]
+    modes = [m for m, _ in cols]
+    cols = [c for _, c in cols]
     resp = common.driver_batch([req("strip", [p for p, _ in c]) for c in cols])
-    for col, r in zip(cols, resp):
+    respn = common.driver_batch([req("stripn", [p for p, _ in c]) for c in cols])
+    # the two new expressions alone, string by string, against Python's `re`
+    import re as _re
+    singles = sorted({p for c in cols for p, _ in c})
+    r1 = common.driver_batch([req("stripmodsn", p) for p in singles])
+    r2 = common.driver_batch([req("dropdash", p) for p in singles])
+    mod_re = r"\[(?:[^\[\]]|\[[^\[\]]*\])*\]|\((?:[^()]|\([^()]*\))*\)"
+    for p_, a_, b_ in zip(singles, r1, r2):
+        chk.count("repaired_expression_single_strings")
+        if a_str(dec(a_)) != _re.sub(mod_re, "", p_):
+            chk.corr_break("stripmodsn", dict(string=p_, impl=_re.sub(mod_re, "", p_), model=a_str(dec(a_))))
+        if a_str(dec(b_)) != _re.sub(r"^-|-$", "", p_):
+            chk.corr_break("dropdash", dict(string=p_, impl=_re.sub(r"^-|-$", "", p_), model=a_str(dec(b_))))
+    for col, r, rn, mode in zip(cols, resp, respn, modes):
         v = dec(r)
         model = [a_str(x) for x in v] if isinstance(v, list) else [v]
+        vn = dec(rn)
+        modeln = [a_str(x) for x in vn] if isinstance(vn, list) else [vn]
+        is_nested = mode == "nested"
         for dt in ("str", "object"):
             ser = pd.Series([p for p, _ in col], dtype=(object if dt == "object" else "str"))
+            # the repaired strip_peptides (FINDING-C15.md) written with the same pandas primitives, against its model;
+            # on the nested notation both against the ground truth
+            if len(col):
+                fixed = [str(x) for x in strip_fixed(ser).tolist()]
+                chk.count("repaired_strip_columns", dt)
+                if fixed != modeln:
+                    chk.corr_break("stripn", dict(column=[p for p, _ in col], impl=fixed, model=modeln))
+                elif is_nested and modeln != [s_ for _, s_ in col]:
+                    chk.corr_break("stripn-groundtruth", dict(column=[p for p, _ in col], model=modeln, expected=[s_ for _, s_ in col]))
             try:
                 impl = [str(x) for x in strip_peptides(ser).tolist()]
             except Exception as e:  # noqa: BLE001
@@ -1587,9 +1712,17 @@ def eval_strip(chk, rng, n):
                 continue
             chk.case(None, ("strip", tuple(p for p, _ in col)))
             chk.count("strip_dtype", dt)
-            chk.count("strip_mode", "random" if all(s_ is None for _, s_ in col) and not all(p in EXOTIC for p, _ in col) else "listed/well-formed")
+            chk.count("strip_mode", "nested/terminal" if is_nested else "random" if all(s_ is None for _, s_ in col) and not all(p in EXOTIC for p, _ in col) else "listed/well-formed")
             bad = [(p, i_, s) for (p, s), i_ in zip(col, impl) if s is not None and i_ != s]
-            if bad:
+            if bad and is_nested:
+                chk.count("nested_notation_stripped_by_code", False)
+                chk.spec_violation(NESTED_SIG, dict(column=[p for p, _ in col], impl=impl, expected=[s for _, s in col],
+                                                    first_row=list(bad[0]),
+                                                    clause="modifications and flanking residues are ignored when mapping peptides "
+                                                           "to proteins: the stripped sequence is not the residue sequence"))
+                if impl != model:       # the model is the code as it is: it must reproduce the defect
+                    chk.corr_break("strip", dict(column=[p for p, _ in col], impl=impl, model=model))
+            elif bad:
                 chk.spec_violation("strip-spec", dict(column=[p for p, _ in col], impl=impl, expected=[s for _, s in col],
                                                       clause="stripped sequence is not the residue sequence"))
             elif impl != model:
@@ -1810,8 +1943,12 @@ def main(chk, args):
         "compared with targets/decoys.peptides; with tied scores (and only then) the observed table is used",
         "decoys=False hides the decoy entries: such runs are generated tie-free, targets.proteins must equal the target "
         "part of the (then unique) expected entries with the C01 q-values over all expected entries",
-        "duplicate row labels of the table given to picked_protein are part of the generated input forms; the "
-        "implementation returns several rows per pair there (known finding, signature 'spec:duplicate row labels')",
+        "duplicate row labels of the table given to picked_protein are part of the generated input forms (defect repaired "
+        "in /repo; a violation is labelled 'spec:duplicate row labels' only when it disappears with a range index)",
+        "annotations that themselves hold brackets and ProForma terminal modifications are generated with their ground truth; "
+        "the real strip_peptides is judged against it (open finding: signature '" + NESTED_SIG + "'); the Lean model of "
+        "strip_peptides is the code as it is and must reproduce the real output; the model of the proposed repair (stripn) "
+        "is compared with Python's re and with the patched function written with pandas' str.replace, not with /repo",
         "scores are integers or dyadic rationals, exact in float64 and in the text round trip (at most 14 significant "
         "decimal digits); a quarter of the tables uses values of 25 significant bits, which float32 cannot hold; protein "
         "q-values are compared after the same float32 rounding primitive as in C01",
